@@ -64,13 +64,14 @@ def run_one(mdir, tier="quick", pids=None):
     return out
 
 
-def ingest(src, pid):
+def ingest(src, pid, prefix=""):
+    """prefix: e.g. 'r2' names the copies <pid>_r2m1 ... (a second round of seeded changes)"""
     res = []
     for m in sorted(os.listdir(src)):
         d = os.path.join(src, m)
         if not (os.path.isdir(d) and os.path.exists(os.path.join(d, "patch.diff"))):
             continue
-        dst = os.path.join(VERIF, "seeded", f"{pid}_{m}")
+        dst = os.path.join(VERIF, "seeded", f"{pid}_{prefix}{m}")
         os.makedirs(dst, exist_ok=True)
         for f in ("patch.diff", "demo.py", "meta.json"):
             shutil.copy(os.path.join(d, f), os.path.join(dst, f))
@@ -90,7 +91,7 @@ def ingest(src, pid):
 
 if __name__ == "__main__":
     if sys.argv[1] == "ingest":
-        ingest(sys.argv[2], sys.argv[3])
+        ingest(sys.argv[2], sys.argv[3], sys.argv[4] if len(sys.argv) > 4 else "")
     elif sys.argv[1] == "run":
         tier = sys.argv[sys.argv.index("--tier") + 1] if "--tier" in sys.argv else "quick"
         pids = sys.argv[sys.argv.index("--pids") + 1].split(",") if "--pids" in sys.argv else None
